@@ -127,6 +127,9 @@ def _redfield(draw):
     td, as_ops = draw(st.booleans()), draw(st.booleans())
     # the time-dependent tensor documents that it cannot be secularised in operator form
     secular = False if (td and as_ops) else draw(st.booleans())
+    if pd is not None and not td and draw(st.sampled_from([False, True])):
+        # the dephasing object is the aggregate's own (electronic pure dephasing from the molecules' dephasing rates)
+        pd = dict(pd, source="aggregate")
     return {"kind": "redfield", "spec": spec, "td": td, "as_ops": as_ops,
             "secular": secular, "pdeph": pd, "A": draw(gens.density_matrix_spec(n + 1)),
             "order": draw(st.sampled_from([2, 4, 6])), "nref": draw(st.sampled_from([1, 2])),
@@ -318,11 +321,20 @@ def _check_closed(case, ctx, rho0, coh):
                           Nref=nref)
         if rwa is not None:
             rt.convert_from_RWA(ham2)
-        return numpy.array(pe.data), numpy.array(rt.data), dme
+        with qr.eigenbasis_of(ham2):
+            pe_eig = numpy.array(pe.data)
+        return numpy.array(pe.data), numpy.array(rt.data), dme, pe_eig, numpy.array(pe.data)
     ok, r = guarded(ctx, "closed/statevector", run_sv, tag)
     if not ok:
         return
-    psi, rho, dme = r
+    psi, rho, dme, psi_eig, psi_back = r
+    # the stored state vectors presented in the eigenbasis of the Hamiltonian, and back
+    evh, Sh = numpy.linalg.eigh(H)
+    if len(evh) < 2 or float(numpy.min(numpy.diff(evh))) > 1e-6 * max(1e-9, float(numpy.max(numpy.abs(evh)))):
+        # (eigenvectors are defined up to a sign: compare populations and the energy)
+        ctx.close("closed/statevector-in-eigenbasis", numpy.abs(psi_eig) ** 2, numpy.abs(psi @ Sh.conj()) ** 2, rtol=1e-9,
+                  scale=1.0, where=tag)
+    ctx.close("closed/statevector-in-eigenbasis", psi_back, psi, rtol=1e-10, scale=1.0, where=tag + "/back")
     if dme is not None:
         # the density-matrix evolution made from a state-vector evolution is |psi(t)><psi(t)| at every stored time
         ctx.close("closed/statevector-to-densitymatrix-evolution", dme, numpy.einsum("ki,kj->kij", psi, psi.conj()),
@@ -445,13 +457,28 @@ def _check_redfield(case, ctx, rho0, coh):
     tag = "redfield/%s/%s" % ("td" if case["td"] else "static", "ops" if case["as_ops"] else "tensor")
 
     def run():
-        agg = gens.make_aggregate(qr, spec)
+        agg = gens.make_aggregate(qr, spec, build=False)
+        if case["pdeph"] and case["pdeph"].get("source") == "aggregate":
+            with qr.energy_units("1/cm"):
+                for i, m in enumerate(agg.monomers):
+                    m.set_transition_dephasing((0, 1), 1.0 / (60.0 + 25.0 * i))
+                    m.set_transition_width((0, 1), 40.0 + 30.0 * i)
+        agg.build()
         t0, nt, dt = spec["time"]
         ta = qr.TimeAxis(t0, int(nt), dt)
         RT, ham = agg.get_RelaxationTensor(ta, relaxation_theory="standard_Redfield", time_dependent=case["td"],
                                            secular_relaxation=case["secular"], as_operators=case["as_ops"])
         kw = {}
-        if case["pdeph"]:
+        if case["pdeph"] and case["pdeph"].get("source") == "aggregate":
+            pdo = agg.get_PureDephasing(dtype=case["pdeph"]["dtype"])
+            rates_m = numpy.array(pdo.data, dtype=float)
+            ctx.close("redfield/aggregate-dephasing-rates-symmetric", rates_m, rates_m.T, rtol=1e-12,
+                      scale=max(1e-300, float(numpy.max(numpy.abs(rates_m)))), where=tag)
+            ctx.bound("redfield/aggregate-dephasing-rates-zero-diagonal", float(numpy.max(numpy.abs(numpy.diag(rates_m)))),
+                      1e-15 + 1e-12 * float(numpy.max(numpy.abs(rates_m))), where=tag)
+            ctx.label("pdeph-from-aggregate")
+            kw["PDeph"] = pdo
+        elif case["pdeph"]:
             kw["PDeph"] = PureDephasing(drates=numpy.array(case["pdeph"]["rates"], dtype=float) / 1000.0,
                                         dtype=case["pdeph"]["dtype"])
         nref = case["nref"]
